@@ -47,23 +47,4 @@ example : (Facts.graph.fns.filter (·.holdsLock)).map (·.name) =
 example : "multiCIDRRangeAllocator.runNodeWorker" ∈ rootsU Facts.graph := by decide +kernel
 example : "multiCIDRRangeAllocator.updateCIDRsAllocation" ∈ closureL Facts.graph := by decide +kernel
 
-/-- the worker loops re-queue on error and forget only on success (C11), regenerated fact -/
-theorem workerLoopsRequeue : Facts.workerLoops =
-    [("processNextCIDRWorkItem", true, true), ("processNextNodeWorkItem", true, true)] := by decide
-
-/-- the five metric vectors are registered and `/metrics` is bound to the Prometheus handler (C19) -/
-theorem metricsServed : Facts.metricsEndpoint = true ∧
-    ["multicidrset_cidrs_allocations_total", "multicidrset_cidrs_releases_total", "multicidrset_usage_cidrs", "multicirdset_max_cidrs"].all
-      (fun m => Facts.metricsRegistered.contains m) = true := by decide
-
-/-- start-up order (C03): nodes are listed before the allocator is constructed, informers start afterwards;
-inside the constructor ClusterCIDRs are mapped before the service ranges are occupied, before the listed
-nodes are occupied, before the node handlers are registered -/
-theorem startupOrder : Facts.startupOrder = ["Nodes.List", "NewMultiCIDRRangeAllocator", "Start", "Start", "Run"] ∧
-    Facts.constructorOrder = ["listClusterCIDRs", "reconcileBootstrap", "AddEventHandler:clusterCIDRInformer",
-      "filterOutServiceRange", "filterOutServiceRange", "occupyCIDRs", "AddEventHandler:nodeInformer"] := by decide
-
-/-- the objects sent to the API server by the ClusterCIDR write paths are DeepCopies (C20) -/
-theorem writesUseCopies : Facts.deepCopyWrites.all (fun (_, w, c) => w == c && w > 0) = true := by decide
-
 end Ipam.C16
